@@ -43,6 +43,45 @@ T = {
  "C20-a": ("C20", "mpi_polling.cpp poll_multithreaded: the callback lookup after MPI_Testsome drops the chunk offset",
            "more than 32 requests in the polling vector and a completion found beyond the first chunk: an unrelated receive is signalled before its transfer, the completed request's sender never completes",
            "the first C20 workload had at most 48 requests and rarely more than a few outstanding at once; a hold mode (the simulated transport completes nothing until a whole batch of up to 128 requests is posted) and a drawn polling size were added"),
+ "C01-c": ("C01", "thread_queue::add_new decrements the staged-task counter of the stealing queue instead of the queue it took the tasks from",
+           "stealing enabled, an idle worker stealing *staged* tasks from a busy worker's queue: both counters are wrong for good; low-priority tasks are never fetched, a worker never leaves its loop at shutdown", ""),
+ "C02-c": ("C02", "detail::condition_variable::notify_one returns 'queue_.size() > 1' (the woken entry was already popped)",
+           "one wake-up operation that has to release two or more waiters through the notify_one loop (latch with >= 2 waiters, release(n >= 2), sliding_semaphore::signal): the last waiter is never resumed",
+           "missed by the C02 workload (every pair had exactly one waiter; C08/C09 workloads would see it); caught after latch and semaphore pairs got 0-3 co-waiters"),
+ "C03-c": ("C03", "when_all_vector set_value: finish() moved inside 'if (!set_stopped_error_called)'",
+           ">= 2 predecessors, one completing with error/stopped and a value completion arriving after it: the counter never reaches zero, no completion signal at all", ""),
+ "C04-c": ("C04", "async_rw_mutex::readwrite(): fast path that reuses the current state when nobody else references it, without recording that the last access is now a writer",
+           "reads requested, granted and fully released, then readwrite requested (fast path) and held, then a read requested: it joins the writer's state and is granted at once",
+           "missed by the C04 workload (all senders were requested up front); caught after the program was cut into waves whose senders are requested only after the earlier accesses were released"),
+ "C05-c": ("C05", "resume_processing_unit_direct sends one wake-up request instead of polling until the worker left 'sleeping'",
+           "suspend() soon after resume(), before every worker has woken: the not yet woken worker is skipped by the suspend, then wakes into a runtime that is reported suspended and runs tasks", ""),
+ "C06-c": ("C06", "mutex::try_lock tests owner_id_ before taking the internal spinlock and not again under it",
+           ">= 2 workers, a try_lock whose window between test and internal lock overlaps a complete acquisition by another task: two owners", ""),
+ "C07-c": ("C07", "stop_token.cpp add_this_callback: the old head's back pointer is set to the list head instead of the new node",
+           ">= 2 stop-token waits on one stop state, an older one leaving first (unregistering corrupts the list), then request_stop: the remaining waiter is never woken", ""),
+ "C08-c": ("C08", "sliding_semaphore::signal: fast path for an empty wait queue that assigns the lower limit without max()",
+           "signals out of order while nobody waits: the lower limit moves backwards; a later wait that should pass blocks for good", ""),
+ "C09-c": ("C09", "latch: notified_ is set after the notify loop, under a freshly re-acquired lock",
+           "a wait() that takes the latch's lock between the notifier's unlock and re-lock, with the count already zero: it enqueues and is never notified", ""),
+ "C10-c": ("C10", "static_priority_queue_scheduler::set_scheduler_mode: the two mask operations merged with & instead of |",
+           "static-priority policy: stealing stays enabled after thread_manager sets the default mode; hinted tasks run on other workers", ""),
+ "C11-c": ("C11", "thread_pool_scheduler_bulk set_value: the values are moved into the operation state before the n == 0 early return, which then forwards the moved-from objects",
+           "n == 0 and a predecessor value of an owning type sent as rvalue: the receiver gets an empty shell",
+           "would have been missed (the payload's move constructor left the source intact); the payload is an owning type now (visibly empty after a move), strengthened on reading the report before the first run"),
+ "C12-c": ("C12", "thread_queue::create_thread resolves thread_stacksize::current only on the run_now path",
+           "a staged (normal priority) child created with thread_stacksize::current by a task of a non-small class: it gets a small stack",
+           "would have been missed (no workload used thread_stacksize::current); children with 'current' were added on reading the report before the first run"),
+ "C13-c": ("C13", "thread_data::rebind_base no longer clears requested_interrupt_ (the same line as C12-a, produced independently)",
+           "interrupt() aimed at a thread that terminates without another interruption point, its object recycled for a new pika::thread: that thread is interrupted although nobody interrupted it", ""),
+ "C14-c": ("C14", "stop_state::remove_callback recognises the signalling thread by OS thread id also for pika tasks",
+           "a callback that yields inside request_stop on task A while task B on the same worker destroys the stop_callback: the destructor returns while the callback still runs", ""),
+ "C17-c": ("C17", "moodycamel ConcurrentQueue::add_producer: producer->next is not re-linked after a failed CAS",
+           ">= 2 threads whose very first push into the same queue collide: the winner's producer sub-queue is unlinked, its elements are never popped", ""),
+ "C19-c": ("C19", "suspend_processing_unit_internal: the running -> pre_sleep CAS is done after the pu mutex was released",
+           "non-stealing elastic pool, a submission to worker k preempted between its state check and its push while k is suspended: the task sits on the sleeping worker until it is resumed",
+           "NOT flagged, and by the statement it is not a violation: C19 allows work queued on a suspended worker to run 'after the worker is resumed', which is what happens (nothing lost, nothing duplicated, all calls return). Kept as a documented boundary of what the property says; an oracle demanding completion without the resume would ask for more than the property states"),
+ "C20-c": ("C20", "mpi_polling.cpp compact_vectors: the write cursor also advances over holes",
+           ">= 3 requests in the polling vector and two non-adjacent ones completing in one pass: a request handle is registered twice, once with an empty callback", ""),
  "C12-a": ("C12", "thread_data::rebind_base no longer clears requested_interrupt_",
            "an interruption request that is never delivered (interrupt() after the body's last interruption point), recycling of that thread object, a new task on the same queue that reuses it: it starts with interruption_requested() == true",
            "missed by the first C12 workload (its 'dirt' was interruption disabled and exit callbacks only); caught after 'an undelivered interruption request' was added as dirt"),
@@ -101,7 +140,7 @@ for name, (prop, change, needs, note) in sorted(T.items()):
     classes = [l[:260] for l in grep(res, r"^violation class")]
     summary = grep(res, r"^%s quick:" % prop)
     status = grep(res, r"selftest: check exit status")
-    ident = name.split("-")[0] + ("b" if name.endswith("-b") else "")
+    ident = name.split("-")[0] + (name[-1] if name[-1] in "bc" else "")
     conf = R + "/%s.confirm.txt" % ident
     cl = grep(conf, r"^exit=")
     meta = {
